@@ -72,9 +72,19 @@ class Lock:
         self.f.close()
 
 
-def sh(cmd, cwd=None, timeout=3600, env=None, stdin=None):
+def _limit_as(nbytes):
+    def f():
+        import resource
+        resource.setrlimit(resource.RLIMIT_AS, (nbytes, nbytes))
+    return f
+
+
+def sh(cmd, cwd=None, timeout=3600, env=None, stdin=None, mem_limit=None):
+    """mem_limit (bytes of address space): a harness process running changed code that allocates without bound is stopped
+    by the allocator (abort: a crash the check reports) instead of taking the machine down with it"""
     p = subprocess.run(cmd, cwd=cwd, timeout=timeout, env=env or ENV, input=stdin,
-                       stdout=subprocess.PIPE, stderr=subprocess.STDOUT, text=True, errors="replace")
+                       stdout=subprocess.PIPE, stderr=subprocess.STDOUT, text=True, errors="replace",
+                       preexec_fn=_limit_as(mem_limit) if mem_limit else None)
     return p.returncode, p.stdout
 
 
